@@ -9,6 +9,10 @@ string is fed to an SGR terminal emulator (models/sgr.py) that starts in the def
   pairs  : fg x bg over representatives of every family (incl. invalid ones) x 32 effect subsets
   nocolor: no_color=True over every valid spec x effect subsets
   multi  : every ordered triple of representative formats as a multi chunk CHText (with plain parts)
+  seq    : every ordered pair (thorough: also triples) of formatter constructions over look-alike values
+           {1, True, 1.0, 200, 200.0, (5,0,0), (5.0,0,0), 'RED', 0, False, 0.0} x fg/bg role x ColorFmt/ColorBytes,
+           each sequence from a pristine (re-executed) ak.color module; the last construction must be judged and
+           rendered exactly as when it is the only one (bool values are executed but not judged)
   grow   : every ordered pair of representative formats: a text is rendered, extended in place six times
            (`+=` merging into the last chunk / starting a new chunk / plain / a text) and rendered after
            every extension (each observation twice)
@@ -42,12 +46,15 @@ ASSUMPTIONS = [
     "colour values are the documented kinds: names, ints, 3-tuples, 'gN' strings; other objects count as "
     "invalid values; '-' and '' (configuration-file notations) and bool are not passed to ColorFmt",
     "a list [r,g,b] may either be treated like the tuple or rejected with ValueError",
+    "bool values are outside the domain (neither valid nor required to be rejected), float values and tuples "
+    "containing floats are invalid",
     "with no_color=True invalid colour values are outside the domain (documented: all other arguments ignored)",
 ]
 REQUIRED_FEATURES = ["spec:name", "spec:int", "spec:rgb", "spec:gray", "spec:invalid", "pos:fg", "pos:bg",
                      "pos:fg+bg", "effects:5-of-5", "effects:explicit-False", "no_color", "bytes-compared",
                      "multi-chunk", "strip-compared", "colon-form-emitted", "invalid-rejected",
-                     "render-extend-in-place-render"]
+                     "render-extend-in-place-render", "sequence", "sequence:hash-equal-lookalike-same-role",
+                     "sequence:invalid-after-equal-valid", "sequence:valid-after-equal-bool"]
 
 EFFECTS = sgr.EFFECTS
 TEXTS = ("", "x", "a b")
@@ -117,6 +124,8 @@ assert len(EFF_TRI) == 243
 def bounds(tier):
     b = {"single_specs": len(SINGLE), "names": 8, "ints": "-2..257", "tuples": "{-1..6}^3 = 512",
          "grays": "g-1..g25", "junk": len(JUNK), "lists": len(LISTS), "effect_subsets": 32,
+         "construction_sequences": f"all ordered pairs{' and same-role triples' if tier == 'thorough' else ''} over "
+                                   f"{len(LOOKALIKES)} look-alike values x fg/bg x ColorFmt/ColorBytes, pristine module each",
          "effect_assignments_True_False_None": "243 x every single spec (fg)" +
          (" and (bg)" if tier == "thorough" else ""), "texts": list(TEXTS),
          "pair_representatives": f"{len(_pair_reps(tier))}^2 x 32 effect subsets",
@@ -168,6 +177,8 @@ def shards(tier):
             sh.append(("single-tri", "bg", k, nchunks))
         for k in range(128):
             sh.append(("product", k, 128))
+    for k in range(8 if tier == "quick" else 32):
+        sh.append(("seq", k, 8 if tier == "quick" else 32))
     sh.append(("nocolor", "fg"))
     sh.append(("nocolor", "bg"))
     sh.append(("multi",))
@@ -450,6 +461,87 @@ def check_grow(case, acc):
     return None
 
 
+# ---------------------------------------------------------------------------------------------- sequences
+# Values that compare/hash equal although only some of them are colour values: a construction must be judged
+# the same whatever was constructed before it (E2: short histories from a pristine module state).
+LOOKALIKES = [1, True, 1.0, 200, 200.0, (5, 0, 0), (5.0, 0, 0), "RED", 0, False, 0.0]
+SEQ_STEPS = [(ctor, role, spec) for ctor in ("fmt", "bytes") for role in ("fg", "bg") for spec in LOOKALIKES]
+
+
+def _pristine():
+    """A pristine ak.color: the module is re-executed, so every cache it may hold (documented or not, e.g. a
+    functools cache on a helper) starts empty."""
+    import importlib
+    importlib.reload(impl)
+
+
+def _is_bool(spec):
+    return isinstance(spec, bool)
+
+
+def _judge_step(step, acc):
+    """One construction judged by the reference alone (never by history).
+    -> verdict string: 'ok', 'outside-domain', or a violation label; plus the rendering (for valid values)."""
+    ctor, role, spec = step
+    color, bg = (spec, None) if role == "fg" else (None, spec)
+    if _is_bool(spec):
+        # bool is not a documented colour value: whatever happens is outside the domain, but it is executed
+        try:
+            (impl.ColorFmt if ctor == "fmt" else impl.ColorBytes)(color, bg_color=bg)
+        except Exception:  # noqa
+            pass
+        return "outside-domain", None, None
+    case = {"kind": "fmt", "color": enc(color), "bg": enc(bg), "eff": {}, "no_color": False}
+    v, outcome, feats, nt = check_case(case, acc)
+    rendering = None
+    if v is None and outcome in ("colored", "plain"):
+        if ctor == "fmt":
+            rendering = str(impl.ColorFmt(color, bg_color=bg)("x"))
+        else:
+            rendering = impl.ColorBytes(color, bg_color=bg)(b"x").decode()
+    return ("ok" if v is None else v[0]), rendering, v
+
+
+def check_sequence(case, acc):
+    """case['steps'] = [[ctor, role, spec], ...] executed from a pristine module; the verdict and the rendering
+    of the LAST construction must be those of the same construction alone in a pristine module."""
+    steps = [(c, r, dec(sp)) for c, r, sp in case["steps"]]
+    _pristine()
+    alone_verdict, alone_render, _ = _judge_step(steps[-1], acc)
+    _pristine()
+    for st in steps[:-1]:
+        _judge_step(st, acc)
+    verdict, render, v = _judge_step(steps[-1], acc)
+    acc.trans(len(steps) + 1)
+    if alone_verdict == "outside-domain":
+        return None, "seq-outside-domain"
+    if verdict != alone_verdict:
+        msg = (f"the construction {steps[-1]} is judged '{alone_verdict}' on its own but '{verdict}' after "
+               f"{steps[:-1]}: the result depends on earlier constructions")
+        sig = "sequence:" + (verdict if verdict != "ok" else "differs-from-single-shot")
+        return (sig, msg, v[2] if v else render, v[3] if v else alone_verdict), "seq-bad"
+    if render != alone_render:
+        return (("sequence:rendering-depends-on-history", f"{steps[-1]} renders differently after {steps[:-1]}",
+                 render, alone_render), "seq-bad")
+    return None, ("seq-rejected" if verdict.startswith("invalid") or alone_render is None else "seq-same-rendering")
+
+
+def _seq_features(steps):
+    f = ["sequence"]
+    (c1, r1, s1), (c2, r2, s2) = steps[-2], steps[-1]
+    if r1 == r2 and type(s1) is not type(s2):
+        try:
+            if s1 == s2 and hash(s1) == hash(s2):
+                f.append("sequence:hash-equal-lookalike-same-role")
+                if sgr.expected_index(s2) == "invalid" and not _is_bool(s2) and sgr.expected_index(s1) != "invalid":
+                    f.append("sequence:invalid-after-equal-valid")
+                if _is_bool(s1) and sgr.expected_index(s2) != "invalid":
+                    f.append("sequence:valid-after-equal-bool")
+        except TypeError:
+            pass
+    return f
+
+
 # ---------------------------------------------------------------------------------------------- shards
 def run_shard(shard, tier, seed, acc):
     kind = shard[0]
@@ -512,6 +604,32 @@ def run_shard(shard, tier, seed, acc):
                 else:
                     _do(acc, "RED", spec, eff, no_color=True)
         return
+    if kind == "seq":
+        _, k, n = shard
+        try:
+            first = [st for st in SEQ_STEPS if st[0] == "fmt"]
+            idx = 0
+            for ia, a in enumerate(first):
+                for b in SEQ_STEPS:
+                    idx += 1
+                    if idx % n != k:
+                        continue
+                    seqs = [[a, b]]
+                    if tier == "thorough":
+                        seqs += [[c, a, b] for ic, c in enumerate(first) if c[1] == a[1] and ic != ia]
+                    for steps in seqs:
+                        case = {"kind": "seq", "steps": [[c, r, enc(sp)] for c, r, sp in steps]}
+                        v, outcome = check_sequence(case, acc)
+                        acc.case(nontrivial=(a[1] == b[1]), features=_seq_features(steps),
+                                 outcome=outcome if v is None else v[0])
+                        if a[2] == 200 and b[2] == 200.0 and len(steps) == 2:
+                            acc.sample(case)
+                        _report(acc, v, case)
+                if acc.expired():
+                    return
+        finally:
+            _pristine()
+        return
     if kind == "multi":
         fm = _multi_formats(tier)
         for rot in (0, 1, 2):
@@ -538,6 +656,11 @@ def replay(case, acc):
         _report(acc, check_multi(case, acc), case)
     elif case["kind"] == "grow":
         _report(acc, check_grow(case, acc), case)
+    elif case["kind"] == "seq":
+        try:
+            _report(acc, check_sequence(case, acc)[0], case)
+        finally:
+            _pristine()
     else:
         v, outcome, feats, nt = check_case(case, acc)
         _report(acc, v, case)
